@@ -141,7 +141,7 @@ func runSeq(c *mc.Ctx) {
 	// tier must stay near 90 s and the thorough tier within 15 min even on a loaded machine.
 	// Every (phase, level) search gets an equal share of what is left, so a cap never starves
 	// a whole configuration; what was completed is reported per configuration.
-	budget := time.Duration(envInt("VERIF_TRIE_BUDGET_S", c.Pick(80, 13*60))) * time.Second
+	budget := time.Duration(envInt("VERIF_TRIE_BUDGET_S", c.Pick(85, 13*60))) * time.Second
 	end := time.Now().Add(budget)
 	if c.Deadline.Before(end) {
 		end = c.Deadline
